@@ -492,8 +492,11 @@ def _r12g(cx, gen):
             cx.ob("R12g", s, g, f"`[..:-{k}]` is taken only when {k} is non-zero" if g else f"`{norm(s)}` with {k} == 0 is empty, not `everything up to the end` (lines / counts are lost when no last lines are requested)")
     cx.at_least("R12g", "tail slices", n_neg, 1)
     # (3) composition and count
-    comp = [v for st, v in assignments(gen, lines) if v is not None and isinstance(v, ast.BinOp)]
-    ok = len(comp) == 1 and norm(comp[0]) == "first_lines + [skipped_recs_line] + last_lines"
+    from sa.core import seq_tokens
+    # (the shown list may be a variable of its own, not the re-bound line list)
+    comp = [s_.value for s_ in walk_local(gen) if isinstance(s_, ast.Assign) and len(s_.targets) == 1 and isinstance(s_.targets[0], ast.Name)
+            and isinstance(s_.value, (ast.BinOp, ast.List)) and any(x in (seq_tokens(s_.value) or []) for x in ("*first_lines", "*last_lines", "skipped_recs_line"))]
+    ok = len(comp) == 1 and seq_tokens(comp[0]) == ["*first_lines", "skipped_recs_line", "*last_lines"]
     cx.ob("R12g", gen, ok, "shown lines = first + [skipped marker] + last" if ok else "composition of the shown lines altered", stmt="composition")
     ns = [v for _, v in assignments(gen, "n_skipped") if v is not None]
     ok = len(ns) == 2 and any(const(v, int) and v.value == 0 for v in ns)
